@@ -490,6 +490,7 @@ TRIAGE[("C13", "R2", "qkeras/qnormalization.py::QBatchNormalization",
     "replayed": "by reading QBatchNormalization.__init__ / get_config"}
 TRIAGE[("C13", "R2", "qkeras/qconv2d_batchnorm.py::QConv2DBatchnorm",
         "option-not-serialised:data_format")] = {
+    "status": "fixed", "commit": "7ebfc98",
     "what_fails": "QConv2DBatchnorm.__init__ accepts data_format but does "
                   "not forward it to QConv2D.__init__, so the layer always "
                   "uses the default and get_config reports the default",
@@ -509,3 +510,81 @@ for unit, opt in (
                     "without it" % opt,
       "replayed": "by reading the config.update({...}) literal of the "
                   "class's get_config"}
+
+# ---------------------------------------------------------------------- C14
+_EX = "qkeras/utils.py::model_save_quantized_weights"
+TRIAGE[("C14", "R1", _EX, "signs-list-misaligned")] = {
+    "status": "fixed", "commit": "ba9c5ad",
+    "what_fails": "the auto_po2 branch of the per-weight loop appended to "
+                  "`scales` but not to `signs`, so for a layer mixing a "
+                  "power-of-two weight with an auto_po2 weight signs[i] no "
+                  "longer described weight i",
+    "replayed": "by reading the three branches (the export cannot be run "
+                "under the pinned Keras 3: find_bn_fusing_layer_pair needs a "
+                "model clone); the interpreter shows 3 sign entries for 4 "
+                "weights before the fix"}
+TRIAGE[("C14", "R5", _EX, "auto_po2:scale*integer!=weight")] = {
+    "what_fails": "for quantized_bits(alpha='auto_po2') the export returns "
+                  "hw_weight = weight*m/m_i and scale = quantizer.scale*m_i/m,"
+                  " whose product is quantizer.scale * weight, not the "
+                  "stored weight (and hw_weight is scale * integer code, not "
+                  "the integer code)",
+    "replayed": "normal forms computed by the interpreter: scale*hw_weight = "
+                "qscale*Q(w); the un-runnable upstream test utils_test.py::"
+                "test_clone_model_and_freeze_auto_po2_scale pins this "
+                "convention (weights [0.5, 6, ...], scales [0.25, ...] for a "
+                "stored weight 0.25), so it is recorded, not repaired"}
+TRIAGE[("C14", "R3", "qkeras/qnormalization.py::QBatchNormalization",
+        "quantizers-misaligned-with-weights")] = {
+    "what_fails": "QBatchNormalization.get_quantizers() is [gamma, beta, "
+                  "mean, variance, inverse] while get_weights() omits gamma "
+                  "(scale=False) or beta (center=False) at the front: the "
+                  "export zips them by position and applies the gamma "
+                  "quantizer to beta / moving_mean",
+    "replayed": "by reading QBatchNormalization.__init__ (quantizers list) "
+                "and the zip(qs, ws) of the export"}
+TRIAGE[("C14", "R3", "qkeras/qrecurrent.py::QBidirectional",
+        "quantizers-misaligned-with-weights")] = {
+    "what_fails": "QBidirectional.get_quantizers() returns forward[kernel, "
+                  "recurrent, bias, state] + backward[...] (8 entries) and "
+                  "the export does not strip the state quantizers for this "
+                  "class, while get_weights() has 6 entries: the forward "
+                  "state quantizer is applied to the backward kernel, etc.",
+    "replayed": "by reading QBidirectional.get_quantizers and the class "
+                "list [QSimpleRNN, QLSTM, QGRU] of the [:-1] slicing"}
+
+# ---------------------------------------------------------------------- C11
+TRIAGE[("C11", "R1", "qkeras/qrecurrent.py::QGRUCell.call",
+        "weight-unused:recurrent_kernel")] = {
+    "status": "fixed", "commit": "aa3ef0f",
+    "what_fails": "with recurrent_quantizer=None QGRUCell.call bound the "
+                  "un-quantized recurrent matrix to self.kernel, so "
+                  "recurrent_kernel never reached the output",
+    "replayed": "by reading the else-branch (quantized_recurrent = "
+                "self.kernel); the cell cannot be constructed under the "
+                "pinned Keras 3"}
+TRIAGE[("C11", "R4", "qkeras/qconvolutional.py::QConv2DTranspose.__init__",
+        "dead-option:output_padding")] = {
+    "status": "fixed", "commit": "7989c70",
+    "what_fails": "QConv2DTranspose.__init__ passed output_padding=None to "
+                  "the parent constructor instead of its own parameter",
+    "replayed": "by reading the super().__init__ call"}
+
+# ---------------------------------------------------------------------- C15
+TRIAGE[("C15", "R2", "qkeras/qconv2d_batchnorm.py::QConv2DBatchnorm.__init__",
+        "dead-option:data_format")] = {
+    "status": "fixed", "commit": "7ebfc98",
+    "what_fails": "QConv2DBatchnorm.__init__ accepted data_format but never "
+                  "read it (not forwarded to QConv2D.__init__)",
+    "replayed": "by reading the super().__init__ keyword list"}
+
+# ---------------------------------------------------------------------- C18
+TRIAGE[("C18", "R2", "qkeras/estimate.py::analyze_accumulator",
+        "channel-loop-over-wrong-axis")] = {
+    "status": "fixed", "commit": "b92cb7d",
+    "what_fails": "the per-channel loop of analyze_accumulator ranged over "
+                  "k.shape[1] while indexing k[..., i]: for a (3,3,4,8) "
+                  "convolution kernel only 3 of the 8 output channels were "
+                  "analysed",
+    "replayed": "by reading the loop (unfold_model cannot run under the "
+                "pinned Keras 3)"}
